@@ -212,6 +212,32 @@ Proof.
   exists ls, c. auto.
 Qed.
 
+(* CircuitGate.get_qasm_gate_def: the body lines of `gate circuitgate_X (p0..p{n-1}) ...`
+   use contiguous, pairwise disjoint slices of the formals, in body order, covering
+   exactly p0..p{n-1} - the offset advances by num_params for EVERY body operation,
+   nested CircuitGate or not *)
+Theorem C17_gate_def_formals_partition : forall ops,
+  concat (body_formals ops) = header_formals ops /\ NoDup (concat (body_formals ops)).
+Proof. exact body_formals_partition. Qed.
+
+Theorem C17_gate_def_formals_slice : forall ops i b n,
+  nth_error ops i = Some (b, n) ->
+  nth_error (body_formals ops) i = Some (seq (gate_num_params (firstn i ops)) n).
+Proof. exact body_formals_nth. Qed.
+
+(* so instantiating the definition with the gate's parameter vector gives every body
+   operation its own parameters back *)
+Theorem C17_gate_def_formals_select : forall (A : Type) (pss : list (bool * list A)),
+  map (select (concat (map snd pss)))
+      (body_formals (map (fun p => (fst p, length (snd p))) pss))
+  = map (fun p => map Some (snd p)) pss.
+Proof. exact body_formals_select. Qed.
+
+Example C17_gate_def_formals_nonvacuous :
+  body_formals [(true, 4); (true, 4); (false, 3); (false, 0); (true, 1)]
+  = [[0; 1; 2; 3]; [4; 5; 6; 7]; [8; 9; 10]; []; [11]].
+Proof. reflexivity. Qed.
+
 Definition gid_of (s : string) : nat :=
   match find (fun g => opt_str_eqb (l_spelling g) s) lib_gates with Some g => l_gate g | None => 0 end.
 Example C17_roundtrip_nonvacuous :
